@@ -380,6 +380,27 @@ def vartime_harnesses(rep, cfg, modpath, tier, backend=None):
                 for i in range(n): exp = exp + G.base("P%d" % i).scale(spec_naf(it, "s%d" % i, 5))
                 return it.get(out), exp, []
             return b
+        def mk_pre(ns, nd):
+            def b(it):
+                out = it.new_region("out", 4 * it.fs)
+                regs = {}
+                for tag, n in (("t", ns), ("u", nd)):
+                    sc = it.new_region("scalars_" + tag, 32 * max(n, 1)); pts = it.new_region("points_" + tag, 4 * it.fs * max(n, 1))
+                    for i in range(n):
+                        so = gsym.ScalarObj("%s%d" % (tag, i))
+                        for k in range(32): it.regions[sc.r].b[32 * i + k] = (so, k, 32)
+                        it.put(Ptr(pts.r, 4 * it.fs * i), G.base("%s%d" % (tag.upper(), i)), 4 * it.fs)
+                    regs[tag] = (sc, pts, n)
+                (ss, sp, _), (ds, dp, _) = regs["t"], regs["u"]
+                it.call("vp_g_precomputed", [out, ss, Poly.const(ns), sp, Poly.const(ns), ds, Poly.const(nd), dp, Poly.const(nd)])
+                exp = G()
+                for i in range(ns): exp = exp + G.base("T%d" % i).scale(spec_naf(it, "t%d" % i, 5))
+                for i in range(nd): exp = exp + G.base("U%d" % i).scale(spec_naf(it, "u%d" % i, 5))
+                return it.get(out), exp, []
+            return b
+        if not backend or backend in ("avx2", "avx512"):
+            T.append(lambda wname=wname, win=win: g_paths_harness(rep, cfg, modpath, pre + "precomputed Straus 1 static + 1 dynamic point (VartimeEdwardsPrecomputation) [%s]" % wname, "vartime_mixed_multiscalar_mul", mk_pre(1, 1),
+                     "symbolic points; scalars: " + wname, backend=backend, window=win))
         for n in ((2,) if tier == "quick" else (1, 2, 3)):
             T.append(lambda n=n, wname=wname, win=win: g_paths_harness(rep, cfg, modpath, pre + "vartime Straus n=%d (EdwardsPoint::vartime_multiscalar_mul) [%s]" % (n, wname), "vartime_multiscalar_mul", mk_vs(n),
                      "symbolic points; scalars: " + wname, backend=backend, window=win, replay_kind="vartime_multiscalar", replay_points=n))
